@@ -444,7 +444,7 @@ pub fn shape_accepts(words: &[String], prefix: &str, shape: &str) -> bool {
 
 impl<'a> Interp<'a> {
     /// errors of `supports(..)` for a derive input
-    fn supports_item(&self, words: &[String], body: &EBody) -> Vec<Leaf> {
+    pub fn supports_item(&self, words: &[String], body: &EBody) -> Vec<Leaf> {
         if words.iter().any(|w| w == "any") {
             return vec![];
         }
